@@ -449,8 +449,16 @@ pub fn glob_text(expr: &str, rooted: bool, root_text: &str) -> String {
     }
 }
 
-pub fn behavior(w: &Walker) -> Result<WalkBehavior, String> {
-    let depth = match w.depth {
+/// Component count of the world root's absolute path if the walker's glob is rooted, else 0.
+pub fn depth_shift(w: &Walker, root_text: &str) -> usize {
+    match w.source {
+        Source::Glob { rooted: true, .. } => Path::new(root_text).components().count(),
+        _ => 0,
+    }
+}
+
+pub fn behavior(w: &Walker, root_text: &str) -> Result<WalkBehavior, String> {
+    let depth = match w.depth.shifted(depth_shift(w, root_text)) {
         Depth::Unbounded => DepthBehavior::Unbounded,
         Depth::Max(n) => DepthMax(n).into(),
         Depth::Min(n) => DepthMin::from_min_or_unbounded(n),
@@ -531,7 +539,7 @@ pub fn build_walker(
     }
     install_order(w, &sc.cwd, &world.root_text);
     let base = PathBuf::from(base_text(w, &sc.cwd, &world.root_text));
-    let beh = behavior(w)?;
+    let beh = behavior(w, &world.root_text)?;
     let res = match &w.source {
         Source::Path => {
             let it = base.as_path().walk_with_behavior(beh);
